@@ -10,6 +10,8 @@ import (
 	"fmt"
 	"hash/fnv"
 	"math"
+	"os"
+	"path/filepath"
 	"sort"
 
 	"github.com/deadsy/sdfx/render"
@@ -18,9 +20,14 @@ import (
 	v3 "github.com/deadsy/sdfx/vec/v3"
 	"github.com/deadsy/sdfx/verifrt/vos"
 	"github.com/deadsy/sdfx/verifrt/vsync"
+	"github.com/hpinc/go3mf"
+	"github.com/yofu/dxf"
+	"github.com/yofu/dxf/entity"
 
 	"verif/lib/vlib"
 )
+
+var work = filepath.Join(vlib.VerifDir, ".work", "c11")
 
 func tri(k int) *sdf.Triangle3 {
 	f := float64(k)
@@ -316,6 +323,56 @@ func (sc scen) body() (func(), func() ([]int, string)) {
 				}
 				return got, ""
 			}
+	case "to3mf":
+		// 3MF and DXF are written to the real file system by the writer goroutine (their libraries take a
+		// path); the file is decoded with the independent readers after every execution
+		path := filepath.Join(work, fmt.Sprintf("p%d.3mf", os.Getpid()))
+		return func() {
+				os.Remove(path)
+				render.To3MF(dummy3{}, path, scripted3{sc.Batches[0]})
+			}, func() ([]int, string) {
+				r, err := go3mf.OpenReader(path)
+				if err != nil {
+					return nil, "unreadable: " + err.Error()
+				}
+				defer r.Close()
+				var m go3mf.Model
+				if err := r.Decode(&m); err != nil {
+					return nil, "does not decode: " + err.Error()
+				}
+				if len(m.Resources.Objects) != 1 || m.Resources.Objects[0].Mesh == nil {
+					return nil, fmt.Sprintf("%d objects", len(m.Resources.Objects))
+				}
+				mesh := m.Resources.Objects[0].Mesh
+				var got []int
+				for _, t := range mesh.Triangles.Triangle {
+					if int(t.V1) >= len(mesh.Vertices.Vertex) {
+						return nil, "vertex index out of range"
+					}
+					got = append(got, int(math.Round(float64(mesh.Vertices.Vertex[t.V1].X()))))
+				}
+				return got, ""
+			}
+	case "todxf":
+		path := filepath.Join(work, fmt.Sprintf("p%d.dxf", os.Getpid()))
+		return func() {
+				os.Remove(path)
+				render.ToDXF(dummy2{}, path, scripted2{sc.Batches[0]})
+			}, func() ([]int, string) {
+				d, err := dxf.FromFile(path)
+				if err != nil {
+					return nil, "unreadable: " + err.Error()
+				}
+				var got []int
+				for _, e := range d.Entities() {
+					ln, ok := e.(*entity.Line)
+					if !ok {
+						return nil, fmt.Sprintf("foreign entity %T", e)
+					}
+					got = append(got, int(math.Round(ln.Start[0])))
+				}
+				return got, ""
+			}
 	}
 	panic("unknown scenario kind " + sc.Kind)
 }
@@ -364,6 +421,9 @@ func runScenario(c *vlib.Ctx, sc scen, j *vlib.Job) {
 		if len(x.Faults) == 0 {
 			if msg := checkOrder(got, sc.Batches); msg != "" {
 				j.Violation(sc.Kind+"|"+classify(msg)+fmt.Sprintf("|producers=%d", len(sc.Batches)), fmt.Sprintf("%s batches %v: %s", sc.Kind, sc.Batches, msg), rep())
+			}
+			if (sc.Kind == "to3mf" || sc.Kind == "todxf") && info != "" {
+				j.Violation(sc.Kind+"|file-unreadable-or-malformed", fmt.Sprintf("%s batches %v: %s", sc.Kind, sc.Batches, info), rep())
 			}
 			if sc.Kind == "tostl" && info != "" {
 				j.Violation("tostl|count-field-or-length", fmt.Sprintf("tostl batches %v: %s", sc.Batches, info), rep())
@@ -432,6 +492,7 @@ func runScenario(c *vlib.Ctx, sc scen, j *vlib.Job) {
 
 func main() {
 	c := vlib.Start("C11")
+	os.MkdirAll(work, 0o755)
 	if c.Replay != "" {
 		var sc scen
 		if err := c.LoadReplay(&sc); err != nil {
@@ -483,6 +544,12 @@ func main() {
 		if total(s) > 0 {
 			scens = append(scens, scen{Kind: "tosvg", Batches: [][]int{s}, Bound: -1})
 		}
+	}
+	for _, s := range seqs([]int{0, 1, T - 1, T, T + 1, 2*T + 3}, 2) {
+		scens = append(scens, scen{Kind: "to3mf", Batches: [][]int{s}, Bound: -1})
+	}
+	for _, s := range seqs([]int{0, 1, L - 1, L, L + 1, 2*L + 3}, 2) {
+		scens = append(scens, scen{Kind: "todxf", Batches: [][]int{s}, Bound: -1})
 	}
 	// multi-producer
 	pm := func(t int) [][]int { return [][]int{{1}, {t - 1}, {t}, {t + 1}, {1, t}, {t - 1, 2}, {t, t}} }
